@@ -10,17 +10,10 @@ From Coq Require Import List NArith ZArith Bool Lia ZifyBool ZifyNat ZifyN.
 From Verif Require Import Bits Huffman Inflate.
 From Verif Require Import Base EngineTables Engine EngineRefineSpec.
 From Verif Require Import EngineRefineLitLenBase EngineRefineLitLenDefs EngineRefineLitLenCode.
-From Verif Require Import EngineRefineLitLenXc EngineRefineLitLenPrefix EngineRefineLitLenShort EngineRefineLitLenLong
-  EngineRefineLitLenLookup.
+From Verif Require Import EngineRefineLitLenXc EngineRefineLitLenPrefix EngineRefineLitLenSort EngineRefineLitLenShort
+  EngineRefineLitLenLong  EngineRefineLitLenLookup.
 Import ListNotations.
 Open Scope N_scope.
-
-Section Assembly.
-Hypothesis sae_tail_sorted : forall ll xc d ex nc d1,
-    lens_in ll 0 286 (litAndDistHuff d) (litCount d) ->
-    ps_post ll ex nc -> oversubscribed 15 ll = false -> xc_char ll xc ->
-    sae_tail d ex nc = (d1, ENone) ->
-    xsorted xc d1.
 
 (* sae_tail never reports an invalid block *)
 Lemma sae_tail_err : forall d ex nc d1 e, sae_tail d ex nc = (d1, e) -> e = ENone \/ e = EPanic.
@@ -57,7 +50,7 @@ Proof.
   lia.
 Qed.
 
-Theorem gen_litlen_from_parts : gen_litlen_statement.
+Theorem gen_litlen : gen_litlen_statement.
 Proof.
   unfold gen_litlen_statement. intros ll d sh0 lg0 multisym Hin.
   pose proof (ps_loops_spec ll d Hin) as Hps.
@@ -100,5 +93,5 @@ Proof.
         -- apply (gll_phase1_ok (xcodes ll) d1 sh0 multisym S0 cs Hwf HS); [lia|exact Ep].
         -- apply (encodeLongCodes_ok (xcodes ll) d1 S0 lg0 sh lg huff' Hwf HS El).
 Qed.
-End Assembly.
-Check gen_litlen_from_parts.
+
+Print Assumptions gen_litlen.
